@@ -75,9 +75,12 @@ func Counters() map[string]int64 {
 
 func OnReset(f func()) { resets = append(resets, f) }
 
+var retained []any
+
 func Reset() {
 	mu.Lock()
 	counters = map[string]int64{}
+	retained = nil
 	mu.Unlock()
 	for _, f := range resets {
 		f()
@@ -281,6 +284,11 @@ func runOp(c any, ctxs map[string]context.Context, op Op) (res Result) {
 		return x
 	}
 	wrap := func(v any, err error) Result {
+		// keep every returned object alive until the session ends: identities are pointer values, and a collected
+		// object's address may be reused by a later allocation
+		mu.Lock()
+		retained = append(retained, v)
+		mu.Unlock()
 		if err != nil {
 			return Result{Err: err.Error(), V: Describe(v, c)}
 		}
